@@ -101,6 +101,22 @@ def _a3m():
     return vector.zip({"pt": ak.Array([[1.5, 2.0], []]), "phi": ak.Array([[0.5, -2.0], []]), "pz": ak.Array([[0.25, -1.0], []])})
 
 
+class _PointArray(ak.Array):
+    pass
+
+
+_OWN_BEHAVIOR = {("*", "point"): _PointArray, "__typestr__point": "point"}
+
+
+def _own_behavior_event():
+    """the caller's arrays carry a behavior of their own (private entries): constructors and operations on them"""
+    a = ak.Array([[{"x": 1.5, "y": 0.75}, {"x": -0.625, "y": 2.25}], []], behavior=dict(_OWN_BEHAVIOR))
+    v = vector.Array(a)
+    w = vector.zip({"x": ak.Array([1.0, 2.0], behavior=dict(_OWN_BEHAVIOR)), "y": ak.Array([3.0, 4.0], behavior=dict(_OWN_BEHAVIOR))})
+    pts = ak.Array([{"u": 1.0}], with_name="point", behavior=dict(_OWN_BEHAVIOR))
+    return (v.rho, (v + v).x, v.rotateZ(0.25), w.phi, type(pts).__name__, sorted(repr(k) for k in v.behavior if "point" in repr(k)))
+
+
 class _BadTransform:
     def __getitem__(self, k):
         raise KeyError(k)
@@ -126,6 +142,7 @@ EVENTS = {
     "array(incomplete) raises": lambda: vector.array({"x": np.array([1.0]), "z": np.array([1.0])}),
     "Array(list)": _a4,
     "zip(dict)": _a3m,
+    "Array/zip(arrays carrying their own behavior)": _own_behavior_event,
     "zip(bad) TypeError": lambda: vector.zip({"x": ak.Array([1.0]), "t": ak.Array([1.0])}),
     # object backend
     "obj.rho/.eta/.tau": lambda: (_o4().rho, _o4().eta, _o4().tau, _o4tau().t, _o4().Et, _o4tau().Mt),
